@@ -119,6 +119,7 @@ def evaluate_any(spec):
         labels.append("has:hello-retry-request")
     if spec.get("drop_keys"):
         labels.append("keys-missing")
+    labels.append("times:" + (spec.get("times") or "epoch"))
     foreign = any(c["kind"] == "noise" for c in spec["conns"]) or bool(spec.get("drop_keys"))
     return {"sig": sig, "detail": detail, "nontrivial": bool(o.pkts) and foreign, "labels": labels}
 
@@ -159,6 +160,10 @@ def any_spec(draw):
         sc["container"] = cont
     if draw(st.integers(0, 3)) == 0:
         sc["drop_keys"] = draw(st.lists(st.integers(0, 12), min_size=1, max_size=6))
+    # capture times: epoch values, relative times starting at exactly 0, stripped times (all 0), or file order that is not time order
+    tm = draw(st.sampled_from([None, None, None, None, "zero", "zero_all", "disorder"]))
+    if tm:
+        sc["times"] = tm
     return sc
 
 
